@@ -24,6 +24,7 @@ def run(tier, seed):
     seen = set()
     worst = {}
     samples = []
+    gen = {'pairs': 0, 'isolated_flips': 0, 'max_error_over_bound': 0.0}
     for e in events:
         if e.get('ev') == 'hang':
             raise V.Broken('C07 hang: %r' % e)
@@ -33,6 +34,10 @@ def run(tier, seed):
             seen.add((e['fam'], e['ty']))
             k = '%s<%s>' % (e['fam'], e['ty'])
             worst[k] = max(worst.get(k, 0.0), e['max_error_over_bound'])
+        elif e.get('ev') == 'c07_general':
+            gen['pairs'] += e['pairs']
+            gen['isolated_flips'] += e['isolated_flips']
+            gen['max_error_over_bound'] = max(gen['max_error_over_bound'], e['max_error_over_bound'])
         elif e.get('ev') == 'viol':
             ver.add({'fam': e['fam'], 'ty': e['ty'], 'kind': e['kind']}, e)
         elif e.get('ev') == 'ctor_err':
@@ -40,6 +45,7 @@ def run(tier, seed):
     rc = ver.finish()
     samples.append({'pair': 'Normal<f64>(0,1) vs Normal<f64>(10,10) on clones of one xoshiro stream with word 0x8000000000000000 at position 1', 'checked': 'x1 vs 10 + 10*x0 within 2ulp(x1)+2ulp(10*x0); equal word counts; equal RNG state'})
     samples.append({'worst_error_over_bound_by_family': worst})
+    samples.append({'general_affine_maps_of_triangular_and_pert': gen, 'rule': 'image of the canonical sample under the map of the support within 4*sqrt(eps) of the range (cancellation inside the samplers next to the ends of the support amplifies parameter rounding that far); isolated mismatches are acceptance flips on a rounding boundary, a mismatch rate > 1 % of the random streams (> 10 % of the correlated lattice streams) of one (base, map) pair is a violation'})
     cov = {
         'evaluations': pairs,
         'distinct_nontrivial': len(seen),
@@ -50,7 +56,10 @@ def run(tier, seed):
         'known_findings_hit': {k: v['n'] for k, v in ver.known_hits.items()},
     }
     V.write_evidence('C07', tier, seed, cov, time.time() - t0, len(ver.violations),
-                     assumptions=['reference a + b*x0 evaluated with an error-free product and sum', 'Triangular/Pert/InverseGaussian only under floating-point-exact maps (powers of two, grid shifts)'])
+                     assumptions=['reference a + b*x0 evaluated with an error-free product and sum', 'InverseGaussian only under floating-point-exact maps (powers of two); Triangular/Pert bit-exact under powers of two and grid shifts, and rate-based under general maps of the support'])
+    if gen['pairs'] == 0:
+        V.log('general-map monitor observed nothing')
+        return rc or 2
     if len(seen) < 2 * len(FAMS):
         V.log('coverage floor not met', sorted(seen))
         return 2
